@@ -160,14 +160,12 @@ func ReadFilter(sql string) (*Read, error) {
 	if err != nil {
 		return nil, err
 	}
-	if !isBool(p) {
-		return nil, fmt.Errorf("the WHERE expression is not a Boolean expression: %s", p)
-	}
 	r.Pred = p
 	return r, nil
 }
 
-func isBool(n *Node) bool {
+// IsBool: the node is a predicate (as opposed to a bare value).
+func IsBool(n *Node) bool {
 	switch n.Kind {
 	case KAnd, KOr, KNot, KCmp, KBetween, KIn, KSimilar, KRegex:
 		return true
@@ -198,9 +196,8 @@ func (r *Read) walk(n *pg_query.Node) (*Node, error) {
 			if err != nil {
 				return nil, err
 			}
-			if !isBool(k) {
-				return nil, fmt.Errorf("operand of %s is not a Boolean expression: %s", strings.ToUpper(kind), k)
-			}
+			// a bare constant or column as a Boolean operand is still "built solely from" the
+			// allowed node kinds (the grammar accepts it); it just cannot be evaluated
 			out.Kids = append(out.Kids, k)
 		}
 		return out, nil
@@ -505,6 +502,9 @@ func (e *Env) Eval(n *Node) (bool, error) {
 			return false, &Outside{"regular expression Go cannot compile"}
 		}
 		return re.MatchString(x.Str), nil
+	}
+	if isValue(n) {
+		return false, &Outside{"a bare value used as a predicate"}
 	}
 	return false, fmt.Errorf("cannot evaluate %s", n)
 }
